@@ -12,7 +12,7 @@ LEVEL = "proof"
 TRUSTED = ["partial: cpp, the OS process and the file system are exercised, not modelled; Cpp.lean models include/guard expansion on the regenerated header tree and is compared with the real cpp on header lists"]
 ASSUMPTIONS = ["tools/extract.py's reading of each header (guard, includes, own content) is regenerated on every run"]
 
-INC = os.path.join(REPO, "utils", "fake_libc_include")
+INC = INC0 = os.path.join(REPO, "utils", "fake_libc_include")
 DIALECTS = ["-std=c99", "-std=c11", "-std=gnu99", "-std=gnu11"]
 
 
@@ -51,10 +51,18 @@ def typedef_names():
 
 
 def job(args):
-    hs, dialect, as_list, tmp, idx = args
+    hs, dialect, as_list, tmp, idx = args[:5]
+    spaced = len(args) > 5 and args[5]
     from pycparser import parse_file, c_ast
     from pycparser.c_parser import CParser
-    path = os.path.join(tmp, "t%d.c" % idx)
+    INC = INC0
+    if spaced:
+        # the same header tree under a directory whose path contains blanks (and the source file too)
+        INC = os.path.join(tmp, "inc dir %d" % idx, "fake libc include")
+        if not os.path.isdir(INC):
+            shutil.copytree(INC0, INC)
+        os.makedirs(os.path.join(tmp, "src dir"), exist_ok=True)
+    path = os.path.join(tmp, "src dir" if spaced else "", "t%d.c" % idx)
     names = typedef_names()
     with open(path, "w") as f:
         for h in hs:
@@ -125,13 +133,18 @@ def run(ctx):
             for d in DIALECTS:
                 jobs.append((combo, d, True, tmp, k))
                 k += 1
+        # paths with blanks, both argument forms (a string is ONE argument: it must not be split)
+        for h in ("stdio.h", "X11/Xlib.h", "zlib.h"):
+            for as_list in (True, False):
+                jobs.append(([h], "-std=c99", as_list, tmp, k, True))
+                k += 1
         res = pmap(job, jobs)
         md = run_model([req("cpp", ",".join(j[0])) for j in jobs]) if ctx.model_available else None
         keys = set()
         for i, (j, r) in enumerate(zip(jobs, res)):
             keys.add((tuple(j[0]), j[1], j[2]))
             if not (isinstance(r, tuple) and r[0] == "OK"):
-                ctx.violation("%s for headers %r with %s (%s)" % (r, j[0][:6], j[1], "list" if j[2] else "str"), {"kind": "headers", "headers": j[0], "dialect": j[1], "as_list": j[2]})
+                ctx.violation("%s for headers %r with %s (%s)" % (r, j[0][:6], j[1], "list" if j[2] else "str"), {"kind": "headers", "headers": j[0], "dialect": j[1], "as_list": j[2], "spaced": len(j) > 5})
                 continue
             if md is not None:
                 got = [f for f in r[1] if f in BODY_FILES and f != "_fake_defines.h" and f != "X11/_X11_fake_defines.h"]
@@ -139,7 +152,7 @@ def run(ctx):
                 if got != want:
                     ctx.violation("real cpp emitted bodies %r, Cpp.lean predicts %r for headers %r" % (got, want, j[0][:6]), {"kind": "headers", "headers": j[0], "dialect": j[1], "as_list": j[2]})
         ctx.count(len(jobs), nontrivial_keys={repr(k_) for k_ in keys})
-        ctx.rule("all %d header files alone x dialects %s x {list, str} cpp_args, random subsets/orders/repetitions of headers, and every order of first need of the three body groups; each generated .c file includes the headers and then declares a variable of every one of the %d typedef names; parse_file(use_cpp=True) must succeed, contain all typedefs and uses, equal preprocessing+parsing by hand, and emit the bodies Cpp.lean predicts" % (len(hs), dialects, len(typedef_names())))
+        ctx.rule("all %d header files alone x dialects %s x {list, str} cpp_args, random subsets/orders/repetitions of headers, header tree and source under paths containing blanks (list and str form), and every order of first need of the three body groups; each generated .c file includes the headers and then declares a variable of every one of the %d typedef names; parse_file(use_cpp=True) must succeed, contain all typedefs and uses, equal preprocessing+parsing by hand, and emit the bodies Cpp.lean predicts" % (len(hs), dialects, len(typedef_names())))
         ctx.sample({"kind": "headers", "headers": jobs[-1][0], "dialect": jobs[-1][1]})
     finally:
         shutil.rmtree(tmp, ignore_errors=True)
@@ -149,7 +162,7 @@ def replay(ctx, payload):
     i = payload["input"]
     tmp = tempfile.mkdtemp(prefix="c19_")
     try:
-        r = job((i["headers"], i["dialect"], i["as_list"], tmp, 0))
+        r = job((i["headers"], i["dialect"], i["as_list"], tmp, 0) + ((True,) if i.get("spaced") else ()))
     finally:
         shutil.rmtree(tmp, ignore_errors=True)
     print(r if not isinstance(r, tuple) else r[0])
